@@ -435,3 +435,35 @@ Definition pe_eqb (a b : pe) : bool :=
   && list_eqb src_eqb (pout a) (pout b).
 Definition opt_eqb {A} (eqb : A -> A -> bool) (a b : option A) : bool :=
   match a, b with Some x, Some y => eqb x y | None, None => true | _, _ => false end.
+
+(* ---------------------------------------------------------------- decidable side conditions *)
+Fixpoint find_op (name : Z) (ops : list opk) : option opk :=
+  match ops with
+  | [] => None
+  | k :: r => if oname k =? name then Some k else find_op name r
+  end.
+
+(* class distinct_by_type (its negation is the known finding not_distinct_by_type): the alternative that
+   decode picks for the choose op [c] of the kernel — the first one of the same op type in the abstract
+   choose op [a] — is the kernel's operation, attributes included *)
+Definition alt_agree (c a : node) : bool :=
+  match nops c with
+  | k :: _ => match find_op (oname k) (nops a) with Some k' => opk_eqb k' k | None => false end
+  | [] => false
+  end.
+Definition ops_agree (g G : pe) : bool :=
+  forallb (fun c => match find_node (pnodes G) (nid c) with Some a => alt_agree c a | None => true end) (pnodes g).
+
+Fixpoint nodup_ids (l : list ident) : bool :=
+  match l with
+  | [] => true
+  | x :: r => negb (existsb (ident_eqb x) r) && nodup_ids r
+  end.
+
+(* structural well-formedness of a PE graph: every choose op has an alternative, choose ids are unique, every
+   switch operand is one of the pnsw switch arguments and every switch argument has exactly one user *)
+Definition pe_wf (G : pe) : bool :=
+  forallb (fun n => negb (Nat.eqb (length (nops n)) 0) && (nsw n <? pnsw G)%nat) (pnodes G)
+  && forallb (fun m => (m <? pnsw G)%nat) (all_muxes G)
+  && nodup_ids (map nid (pnodes G))
+  && forallb (fun i => match switch_user G i with Some _ => true | None => false end) (seq 0 (pnsw G)).
